@@ -215,7 +215,7 @@ func (z *zfn) lengthLike(v ssa.Value, d int) bool {
 		}
 	case *ssa.Extract:
 		if call, ok := x.Tuple.(*ssa.Call); ok && x.Index == 0 {
-			if callIs(&call.Call, "io.ReadFull", "io.ReadAtLeast") {
+			if callIs(&call.Call, "io.ReadFull", "io.ReadAtLeast") || isFillCall(&call.Call) {
 				return true
 			}
 		}
@@ -489,7 +489,7 @@ func (z *zfn) termD(v ssa.Value, d int) lin {
 				return n
 			}
 		}
-		if call, ok := x.Tuple.(*ssa.Call); ok && x.Index == 0 && callIs(&call.Call, "io.ReadFull") {
+		if call, ok := x.Tuple.(*ssa.Call); ok && x.Index == 0 && isFillCall(&call.Call) {
 			name := z.vname(x)
 			n := z.atom(name, x)
 			if !z.seen[name+"/def"] {
